@@ -26,6 +26,9 @@ pub enum Skip {
     DelegatePanic,
 }
 
+/// Marks the message that stands for a panic of a user function on its way to the top.
+pub const PANIC_MARK: &str = "\u{0}user function panicked: ";
+
 pub enum RefErr {
     Lib(E),
     Skip(Skip),
@@ -127,6 +130,8 @@ pub struct RefEnv<'a> {
     /// state of the registered functions with the stateful sentinel behaviour `c` (a counter that
     /// every call advances, except a call with the harness probe argument, which only reads it)
     pub counters: BTreeMap<String, i64>,
+    /// a failed function call may be a panic of the user function (seam checks only)
+    pub panic_faults: bool,
 }
 
 /// Result of the stateful sentinel `c` on `arg` given its current count; advances the count.
@@ -158,6 +163,7 @@ impl<'a> RefEnv<'a> {
             faults,
             fired: Vec::new(),
             counters: BTreeMap::new(),
+            panic_faults: true,
         }
     }
 
@@ -211,6 +217,16 @@ impl<'a> RefEnv<'a> {
             if let Some(idx) =
                 self.record(Ev::Call(name.to_string(), cv(arg)), FaultKind::CallError)
             {
+                if self.panic_faults && crate::env::call_fault_panics(idx, arg) {
+                    // the user function panics: like an error nothing handles (carried to the
+                    // top as a marked message, rendered there as the panic it stands for)
+                    return Ok(Err(EvalexprError::CustomMessage(format!(
+                        "{}{}{}",
+                        PANIC_MARK,
+                        crate::env::INJECTED_PANIC,
+                        idx
+                    ))));
+                }
                 let e = crate::env::injected_call_error(idx, arg);
                 // a not-found error from the context - whatever name it carries - makes the
                 // evaluator fall back to the builtin of the *called* name if builtins are enabled
@@ -453,8 +469,14 @@ pub fn run_ref(
         Err(RefErr::Skip(s)) => return Err(s),
     };
     let result = crate::env::project_typed(result, typed);
+    let rendered = match &result {
+        Err(EvalexprError::CustomMessage(m)) if m.starts_with(PANIC_MARK) => {
+            format!("PANIC: {}", &m[PANIC_MARK.len()..])
+        },
+        other => cr(other),
+    };
     Ok(Outcome {
-        result: cr(&result),
+        result: rendered,
         vars: env.snapshot_vars(),
         fns: env.snapshot_fns(),
         log: env.log,
